@@ -156,6 +156,28 @@ func armBody(home string, t ir.Term, caseName string) (string, bool) {
 	return res, found
 }
 
+// armBodies: the bodies of the arms for caseName in EVERY match of the term (a function may match the same union
+// more than once: an accessor match in front of the emitting one).
+func armBodies(home string, t ir.Term, caseName string) []string {
+	var res []string
+	ir.Walk(t, func(x ir.Term) bool {
+		if m, ok := x.(*ir.Match); ok {
+			for _, a := range m.Arms {
+				for _, cs := range a.Cases {
+					if ir.CaseName(cs) == caseName {
+						p := ir.NewPrinter(home)
+						p.S(m.Scrut)
+						p.S(m)
+						res = append(res, p.S(a.Body.Ret))
+					}
+				}
+			}
+		}
+		return true
+	})
+	return res
+}
+
 func defaultBody(home string, t ir.Term) (string, bool) {
 	if m, ok := t.(*ir.Match); ok && m.Default != nil {
 		p := ir.NewPrinter(home)
@@ -213,7 +235,7 @@ func checkC08(c *Ctx) {
 	} else {
 		r.Undecided("C08.a", "fc.binOpMapWrapper", "definition", "fc/wrapper.go", "anchor variable not found")
 	}
-	c.expectNF(f, "C08.a", "lookupBinOpNF", []string{"#0(lookupBinOp(p0))"}, "table row of a token")
+	c.checkPins(f, "C08.a", []pin{{"lookupBinOpNF", "nf?", "#0(lookupBinOp(p0))", "table row of a token"}})
 	c.expectNF(f, "C08.a", "psCurIsBinOp", []string{"#1(lookupBinOp(psCurrentTT(p0)))"}, "binary-operator test = membership in the table")
 
 	checkLexemes(c, f)
